@@ -18,7 +18,7 @@ def _OS_FIELDS(src):
 
 META = {
     'design_ref': 'DESIGN.md §5 C05',
-    'technique': "shape-case abstract interpretation of set/remove on both paragraph implementations and of the final-newline helper; __setitem__ and set_field_to_simple_value interpreted on symbolic strings by cases (F / F\\n / F\\nR\\n / F\\nR') against the specified calls; set_field_from_raw_string unfolded into paths (helpers inlined): per-line acceptance as regular languages, validate-before-commit on every committing path; comment hand-over by object identity; line-primitive rule; capture agreement of the field-line regex with the Policy 5.1 field-name language; frame obligation on the final-newline helper chain (nothing but the missing line end changes), interpreted on lines with every part present; no store into the paragraph or its existing field is followed by a refusal (path rule); the string wrapper assignment interpreted on symbolic values with automatic case refinement (a decision of the code that depends on the value splits the case, every sub-case is judged)",
+    'technique': "shape-case abstract interpretation of set/remove on both paragraph implementations and of the final-newline helper; __setitem__ and set_field_to_simple_value interpreted on symbolic strings by cases (F / F\\n / F\\nR\\n / F\\nR') against the specified calls; set_field_from_raw_string unfolded into paths (helpers inlined): per-line acceptance as regular languages, validate-before-commit on every committing path; comment hand-over by object identity; line-primitive rule; capture agreement of the field-line regex with the Policy 5.1 field-name language; frame obligation on the final-newline helper chain (nothing but the missing line end changes), interpreted on lines with every part present; no store into the paragraph or its existing field is followed by a refusal (path rule); the string wrapper assignment interpreted on symbolic values with automatic case refinement (a decision of the code that depends on the value splits the case, every sub-case is judged); the commit of an assignment is atomic (what is taken from the existing element is put back when the commit refuses the key); whole documents parsed by the interpreted parser, edited through the interpreted dict interface and compared after every step with a text model kept by the rule (the lines of that field only), then read again",
     'level_text': 'Static decision of the structural conditions for locality: a new field is placed last only after the last field was '
                   'terminated, the terminating newline goes to the last line of the last field and nowhere else, a replacement never moves '
                   'or touches other fields, deletion unlinks exactly the addressed occurrences, a value is routed to the single-line path '
@@ -901,6 +901,119 @@ def r8_field_names(rep, src):
                  'parser and cannot be added through the dictionary interface' % (w, 'not matched as a field' if w1 is not None else 'matched with another name'), detail={'witness': w})
 
 
+def r9_edits_end_to_end(rep, src, tier):
+    """the statement on whole documents: a document is parsed by the interpreted parser (sa.heap, the whole pipeline), fields are set,
+    added and deleted through the interpreted dict interface of its paragraphs, and the text of the document is compared after EVERY step
+    with a model of the text kept here -- the document as a list of comment lines, field lines and separators, on which an assignment
+    rewrites the lines of that field only (its comment lines stay, the name keeps its spelling), a new field goes to the end of its
+    paragraph on lines of its own (a missing line end of the document supplied first) and a deletion removes the lines of the field with
+    its comment.  At the end the text is parsed again (interpreted) and every field shows the value of the model."""
+    import itertools
+    from .. import heap as H
+    mod = src.mod(PM)
+    f = src.func(PM + ':parse_deb822_file')
+    rep.saw_func(f)
+
+    def world():
+        heap = H.Heap(mod, extra_modules=[src.mod('_deb822_repro.tokens'), src.mod('_deb822_repro._util'), src.mod('_util'), src.mod('_deb822_repro.formatter')],
+                      hooks={'sys.intern': lambda it, a, k: a[0], '_strI': lambda it, a, k: H.Key(a[0].lower(), a[0]) if isinstance(a[0], str) else a[0]})
+        heap.native_regex = True
+        return heap, H.Interp(heap)
+
+    def text_of(it, heap, doc):
+        m_ = mod.method(heap.objs[doc.name]['__class__'], 'convert_to_text')
+        t_ = it.call(H.Closure(m_.node, {}, doc, m_.cls), [])
+        return t_.concrete() if hasattr(t_, 'concrete') else t_
+    # a document of the model: paragraphs of [comment text, name, text after the colon], separated by the given texts
+    DOCS = {
+        'comments, a value over several lines, two paragraphs': ([[['# about the source\n', 'Source', ' hello\n'], ['', 'Section', '   misc  \n'], ['# the list\n# continues\n', 'Depends', ' a,\n# inside\n b\n'],
+                                                                   ['', 'Empty', '\n']], [['', 'Package', ' p\n'], ['', 'Description', ' short\n long\n .\n end\n']]], ['\n']),
+        'no line end at the end of the document': ([[['', 'A', ' b\n'], ['', 'C', ' d']]], []),
+        'a free comment between the paragraphs, tabs': ([[['', 'Key', '\tv\n'], ['', 'other-key', ' w\n']], [['', 'Z', ' z\n']]], ['\n# free\n\n']),
+    }
+
+    def render(paras, seps):
+        out = ''
+        for i, p_ in enumerate(paras):
+            out += ''.join(c_ + n_ + ':' + r_ for c_, n_, r_ in p_)
+            if i < len(seps):
+                out += seps[i]
+        return out
+
+    def fmt(value):
+        # the text after the colon for an assigned value: a blank, the value, and the line end it lacks
+        return ' ' + value + ('' if value.endswith('\n') else '\n')
+    OPS = [('set', 'Section', 'devel'), ('set', 'section', 'x y'), ('set', 'Depends', 'one,\n two'), ('set', 'New', 'val'), ('set', 'New-Multi', 'first\n second\n third'),
+           ('del', 'Depends', None), ('del', 'Source', None), ('set', 'A', 'x'), ('set', 'C', 'e'), ('del', 'C', None), ('set', 'Key', 'k'), ('del', 'other-key', None),
+           ('set', 'Source', 'one\n two'), ('del', 'Empty', None), ('set', 'Empty', 'now')]
+    n, bad = 0, None
+    for dname, (paras0, seps) in DOCS.items():
+        names0 = {x_[1].lower() for x_ in paras0[0]}
+        ops = [o_ for o_ in OPS if o_[1].lower() in names0 or o_[1].startswith('New')]
+        pairs = [list(h_) for h_ in itertools.permutations(ops, 2)]
+        hists = [[o_] for o_ in ops] + (pairs if tier == 'thorough' else pairs[3::29])
+        for hist in hists:
+            paras = [[list(x_) for x_ in p_] for p_ in paras0]
+            heap, it = world()
+            text0 = render(paras, seps)
+            n += 1
+            try:
+                doc = it.call(H.Closure(f.node, {}, None, None), [heap.new_list(text0.splitlines(True))], {})
+                env = {'doc': doc}
+                it.exec(ast.parse('p = next(iter(doc))').body[0], env, None)
+            except H.Raised as x:
+                raise AnalysisError('%s: the model document %r is refused by the interpreted parser (%s)' % (f.site, text0, x.exc))
+            done = []
+            for kind, name, value in hist:
+                p0 = paras[0]
+                idx = next((i_ for i_, x_ in enumerate(p0) if x_[1].lower() == name.lower()), None)
+                if kind == 'del' and idx is None:
+                    continue          # (a field that an earlier step deleted)
+                if kind == 'set' and idx is not None:
+                    p0[idx][2] = fmt(value)
+                elif kind == 'set':
+                    if p0 and not p0[-1][2].endswith('\n'):
+                        p0[-1][2] += '\n'
+                    p0.append(['', name, fmt(value)])
+                else:
+                    del p0[idx]
+                done.append('p[%r] = %r' % (name, value) if kind == 'set' else 'del p[%r]' % name)
+                env['#k'], env['#v'] = name, value
+                code = "p[k] = v" if kind == 'set' else "del p[k]"
+                try:
+                    it.exec(ast.parse(code.replace('k', '_k_').replace('v', '_v_')).body[0], dict(env, _k_=name, _v_=value, p=env['p']), None)
+                    got = text_of(it, heap, doc)
+                except H.Raised as x:
+                    got = 'raises %s (line %d)' % (x.exc, x.lineno)
+                want = render(paras, seps)
+                if got != want:
+                    bad = bad or 'the document %r (%s), after %s: %s; only the lines of that field may differ from before: %r' % (
+                        text0, dname, '; '.join(done), got if got.startswith('raises') else 'the text is %r' % got, want)
+                    break
+            else:
+                # the text read again: every field of the first paragraph shows the value of the model
+                heap2, it2 = world()
+                try:
+                    doc2 = it2.call(H.Closure(f.node, {}, None, None), [heap2.new_list(render(paras, seps).splitlines(True))], {})
+                    env2 = {'doc': doc2}
+                    it2.exec(ast.parse('p = next(iter(doc))').body[0], env2, None)
+                    for c_, n_, r_ in paras[0]:
+                        v_ = it2.ev(ast.parse('p[k]', mode='eval').body, dict(env2, k=n_.swapcase()), None)
+                        v_ = v_.concrete() if hasattr(v_, 'concrete') else v_
+                        plain = ''.join(l_ for l_ in r_.splitlines(True) if not l_.startswith('#')).strip()
+                        if not isinstance(v_, str) or v_.strip() != plain and bad is None:
+                            bad = bad or 'the document %r after %s, read again: p[%r] is %r; the text of the field is %r' % (text0, '; '.join(done), n_.swapcase(), v_, plain)
+                except H.Raised as x:
+                    if paras[0]:
+                        bad = bad or 'the document %r after %s cannot be read again: %s' % (text0, '; '.join(done), x.exc)
+    rep.analysed['paths'] += n
+    what = 'set / add / delete on a parsed document change the lines of that field only, and the result reads back (interpreted documents and histories)'
+    if bad:
+        rep.fail('C05.R9', f.site, what, bad, where=f.where)
+    else:
+        rep.ok('C05.R9', f.site, what, '%d histories on %d documents' % (n, len(DOCS)))
+
+
 def check(src, rep, tier):
     rep.explanation = ('C05: set/remove of both paragraph classes are interpreted on symbolic heaps (shared with C10): a new key calls the '
                        'final-newline helper before the first mutation and is appended last, an existing key is replaced in place without the '
@@ -922,6 +1035,8 @@ def check(src, rep, tier):
     rep.guard('C05.R4', r4b_reparse_shapes, src)
     rep.guard('C05.R5', r5_setitem_routing, src)
     rep.guard('C05.R6', r6_delitem_routing, src)
+    rep.need('C05.R9', 1)
+    rep.guard('C05.R9', r9_edits_end_to_end, src, tier)
     rep.need('C05.R8', 1)
     rep.guard('C05.R8', r8_field_names, src)
     rep.need('C05.R7', 1)
